@@ -12,7 +12,7 @@ FAMILIES = [
     ("ask_with_timeout.", ["timeout_full_mailbox", "sends_to_stopped"]),
     ("tell.", ["sends_to_stopped", "lifecycle_basic", "capacity_bound", "drop_refs"]),
     ("ask.", ["ask_reply_integrity", "sends_to_stopped", "dd_cycles", "dd_no_residue", "dd_cycle_first_edge_parked"]),
-    ("ask_join.", ["ask_reply_integrity"]),
+    ("ask_join.", ["ask_reply_integrity", "ask_join_outlives_actor"]),
     ("kill.", ["kill_preempt", "sends_to_stopped"]),
     ("stop.", ["lifecycle_basic", "sends_to_stopped", "capacity_bound"]),
     ("record.", ["sends_to_stopped", "timeout_full_mailbox", "blocking_api"]),
